@@ -111,7 +111,7 @@ func valuesFromOutput(out string) map[string]string {
 		}
 		for _, p := range n.list {
 			if p.isList && len(p.list) == 2 && !p.list[0].isList {
-				m[p.list[0].atom] = p.list[1].String()
+				m[strings.Trim(p.list[0].atom, "|")] = p.list[1].String()
 			}
 		}
 	}
@@ -193,7 +193,7 @@ func writeReplay(verif, repo, prop string, j *job, r *SolveResult) replayOut {
 	vals := valuesFromOutput(r.Output)
 	model := map[string]string{}
 	for _, p := range j.u.ParamInfo {
-		if v, ok := vals[p.Term]; ok {
+		if v, ok := vals[strings.Trim(p.Term, "|")]; ok {
 			model[p.Name] = v
 		}
 	}
